@@ -373,8 +373,14 @@ func (env *Env) c19TypedErrors() {
 	typed := map[string]bool{"verify.CRLUnavailableErr": true, "*verify/trust.AttestationRecreationErr": true}
 	// functions that can return a typed error directly
 	carries := map[*ssa.Function]bool{}
+	inVerify := func(fn *ssa.Function) bool {
+		for fn.Parent() != nil {
+			fn = fn.Parent()
+		}
+		return fn.Pkg != nil && fn.Pkg.Pkg.Path() == load.RepoPath("verify")
+	}
 	for _, fn := range env.P.Funcs {
-		if fn.Pkg == nil || fn.Pkg.Pkg.Path() != load.RepoPath("verify") {
+		if !inVerify(fn) {
 			continue
 		}
 		for _, b := range fn.Blocks {
@@ -408,9 +414,24 @@ func (env *Env) c19TypedErrors() {
 	for len(work) > 0 {
 		f := work[len(work)-1]
 		work = work[:len(work)-1]
-		for _, c := range env.P.Callers[f] {
+		callers := append([]ssa.CallInstruction{}, env.P.Callers[f]...)
+		if par := f.Parent(); par != nil {
+			// a function literal is run through a function value: every call of a
+			// function value with an error result in the function that creates it
+			// may be a call of it
+			for _, b := range par.Blocks {
+				for _, in := range b.Instrs {
+					if c, ok := in.(*ssa.Call); ok && c.Call.StaticCallee() == nil && !c.Call.IsInvoke() {
+						if _, isBuiltin := c.Call.Value.(*ssa.Builtin); !isBuiltin && isErrType(c.Type()) {
+							callers = append(callers, c)
+						}
+					}
+				}
+			}
+		}
+		for _, c := range callers {
 			caller := c.Parent()
-			if caller.Pkg == nil || caller.Pkg.Pkg.Path() != load.RepoPath("verify") {
+			if !inVerify(caller) {
 				continue
 			}
 			cv := c.Value()
